@@ -495,6 +495,34 @@ pub fn check_state(obj: &Object, m: &Model) -> Result<StateStats, String> {
 	if obj.first().map(pair) != m.entries.first().cloned() || obj.last().map(pair) != m.entries.last().cloned() {
 		return Err("first()/last() disagree with the model".into());
 	}
+	// the other views of the same entries: the accessors of an entry, capacity, iteration through
+	// `&Object` / `&mut Object` / `Object`, the Debug rendering (must not panic)
+	if obj.capacity() < obj.len() {
+		return Err(format!("capacity() = {} is smaller than len() = {}", obj.capacity(), obj.len()));
+	}
+	for (e, want) in obj.entries().iter().zip(&m.entries) {
+		let r = e.as_ref();
+		let (k, v) = e.as_pair();
+		let (k2, v2) = e.clone().into_pair();
+		if e.as_key().as_str() != want.0 || *e.as_value() != want.1 || k.as_str() != want.0 || *v != want.1 || k2.as_str() != want.0 || v2 != want.1 || r.key.as_str() != want.0 || **r.as_value() != want.1 || e.clone().into_key().as_str() != want.0 || e.clone().into_value() != want.1 {
+			return Err(format!("the accessors of entry {:?} disagree with its fields", want));
+		}
+	}
+	{
+		let by_ref: Vec<(String, Value)> = obj.into_iter().map(pair).collect();
+		let mut c = obj.clone();
+		let by_mut: Vec<(String, Value)> = (&mut c).into_iter().map(|(k, v)| (k.as_str().to_string(), v.clone())).collect();
+		let by_value: Vec<(String, Value)> = c.into_iter().map(|e| pair(&e)).collect();
+		if by_ref != m.entries || by_mut != m.entries || by_value != m.entries {
+			return Err("iteration through &Object / &mut Object / Object disagrees with the model".into());
+		}
+		if m.entries.len() <= 8 {
+			let d = format!("{:?}", obj);
+			if d.is_empty() {
+				return Err("empty Debug rendering".into());
+			}
+		}
+	}
 	let mut keys: Vec<&str> = m.entries.iter().map(|e| e.0.as_str()).collect();
 	keys.sort();
 	keys.dedup();
